@@ -359,6 +359,81 @@ def reject_probes(rec):
 
     must_raise("del module.x", deletion, "deletion-accepted")
 
+    def deletion_b(what):
+        b = h.Bundle(name="P")
+        b.x = h.Signal()
+        delattr(b, what)
+
+    for what in ("x", "signals", "bundles", "namespace", "name"):
+        must_raise(f"del bundle.{what}", lambda w=what: deletion_b(w), "deletion-accepted")
+    # ill-formed names
+    for bad in ("", 0, None, "_x", "_elaborated"):
+        if bad is not None:
+            must_raise(f"Module.add(Signal, name={bad!r})", lambda b=bad: h.Module(name="P").add(h.Signal(), name=b), "ill-formed-name-accepted")
+            must_raise(f"Bundle.add(Signal, name={bad!r})", lambda b=bad: h.Bundle(name="P").add(h.Signal(), name=b), "ill-formed-name-accepted")
+        if isinstance(bad, str) and bad:
+            must_raise(f"Module.{bad} = Signal", lambda b=bad: setattr(h.Module(name="P"), b, h.Signal()), "ill-formed-name-accepted")
+            must_raise(f"Module.add(Signal(name={bad!r}))", lambda b=bad: h.Module(name="P").add(h.Signal(name=b)), "ill-formed-name-accepted")
+    # the name of the Module / Bundle itself is not an attribute slot
+    for val in (h.Signal(), h.Input(), h.Instance(of=lib()["E"]()), 5):
+        must_raise(f"Module.name = {type(val).__name__}", lambda v=val: setattr(h.Module(name="P"), "name", v), "reserved-name-accepted:setattr")
+        must_raise(f"Bundle.name = {type(val).__name__}", lambda v=val: setattr(h.Bundle(name="P"), "name", v), "reserved-name-accepted:setattr")
+    must_raise("class body `name = h.Port()` (module)", lambda: h.module(type("CbName", (), {"name": h.Port()})), "reserved-name-accepted:class")
+    must_raise("class body `name = h.Signal()` (bundle)", lambda: h.bundle(type("CbName", (), {"name": h.Signal()})), "reserved-name-accepted:class")
+
+    # additions to a Bundle definition that modules were already built from
+    def bundle_after_elab(form):
+        b = h.Bundle(name=f"BAfter{next(_ctr)}")
+        b.x = h.Signal()
+        m = h.Module(name=f"BAfterM{next(_ctr)}")
+        m.p = b(port=True)
+        h.elaborate(m)
+        if form == "setattr":
+            b.z = h.Signal(width=3)
+        else:
+            b.add(h.Signal(width=2), name="z")
+
+    must_raise("Bundle setattr after elaboration of a module using it", lambda: bundle_after_elab("setattr"), "post-elaboration-addition-accepted")
+    must_raise("Bundle add() after elaboration of a module using it", lambda: bundle_after_elab("add"), "post-elaboration-addition-accepted")
+
+    # a refusal leaves the offered object as it was
+    def refusal_is_atomic():
+        m1 = h.Module(name=f"At{next(_ctr)}")
+        m1.a = h.Input()
+        done = h.Module(name=f"AtDone{next(_ctr)}")
+        done.q = h.Signal()
+        h.elaborate(done)
+        try:
+            done.x = m1.a
+        except Exception:
+            pass
+        try:
+            done.add(m1.a, name="y") if False else None
+        except Exception:
+            pass
+        if m1.a.name != "a" or m1.get("a").name != "a" or m1.a._parent_module is not m1:
+            raise AssertionError
+        raise RuntimeError("atomic")  # (signals 'held' to must_raise)
+
+    def refusal_probe():
+        try:
+            refusal_is_atomic()
+        except AssertionError:
+            return  # violated: must_raise will report "accepted"
+        except RuntimeError:
+            raise
+
+    must_raise("a refused addition renames / re-parents the offered object", refusal_probe, "refused-addition-modifies-object")
+    # taking an attribute out of an elaborated module
+    def take_from_elaborated():
+        m1 = h.Module(name=f"Tk{next(_ctr)}")
+        m1.a = h.Input()
+        h.elaborate(m1)
+        m2 = h.Module(name=f"Tk2{next(_ctr)}")
+        m2.x = m1.a
+
+    must_raise("m2.x = <port of an elaborated module>", take_from_elaborated, "post-elaboration-addition-accepted")
+
     def subclass_m():
         class Sub(h.Module):
             pass
